@@ -482,11 +482,14 @@ func ruleMigrateRound2(c *Ctx) {
 		ruleImportSnapshotLast(c, "C13.8")
 		ruleMigrateRendererFidelity(c, "C13.9")
 		ruleFieldsMergedPerStruct(c, "C13.10")
+		ruleWireAliasThreaded(c, "C13.11")
+		ruleProviderFuncResolvedByUses(c, "C13.12")
 	} else {
 		rulePackagelessRendererOnlyAsFallback(c, "C14.6")
 		ruleNoImportForSkippedFields(c, "C14.8", ruleImportSnapshotLast(c, "C14.7"))
 		ruleMigrateRendererFidelity(c, "C14.9")
 		rulePackageMismatchRefused(c, "C14.10")
+		ruleBindConstructor(c, "C14.13")
 		ruleLoopsMakeProgress(c, "C14.12", migPkg)
 		ruleInspectVisitsEverything(c, "C14.11")
 	}
@@ -650,6 +653,33 @@ func ruleParamsNamedFirst(c *Ctx, rule string) {
 				s.maxD = 0
 				if strings.Contains(strings.Join(s.eval(cs.arg(0)), "|"), "Injector.Args(") {
 					nameCalls = append(nameCalls, cs.value())
+				}
+			}
+		}
+		// the names may be allocated inside a private helper (the signature builder): its call is then the naming step
+		if len(nameCalls) == 0 {
+			for _, cs := range callsIn(fn) {
+				h := cs.common.StaticCallee()
+				if h == nil || cs.value() == nil || h == gs {
+					continue
+				}
+				inFam := false
+				for _, f2 := range family(L, fn) {
+					if f2 == h {
+						inFam = true
+					}
+				}
+				if !inFam {
+					continue
+				}
+				for _, cs2 := range callsIn(h) {
+					if cs2.common.StaticCallee() != nil && strings.HasSuffix(cs2.callee, "InjectorParam).Name") {
+						s := newSym(L, map[string]bool{})
+						s.maxD = 0
+						if strings.Contains(strings.Join(s.eval(cs2.arg(0)), "|"), "Injector.Args(") {
+							nameCalls = append(nameCalls, cs.value())
+						}
+					}
 				}
 			}
 		}
